@@ -249,6 +249,50 @@ func (w *World) AddAccount(login, name, pw string, a refproto.Access) {
 	w.WriteFile(filepath.Join("Users", login+".yaml"), refproto.AccountYAML(login, name, HashPw(string(refproto.Obfuscate([]byte(pw)))), a, ""))
 }
 
+// OperatorReload does what SIGHUP and POST /api/v1/reload do in cmd/mobius-hotline-server (its reloadFunc): the same
+// four calls in the same order, on the running server's stores.
+func (w *World) OperatorReload() {
+	si := w.Srv
+	if si == nil {
+		return
+	}
+	if si.Board != nil {
+		if err := si.Board.Reload(); err != nil {
+			w.Violate("operator-reload-fails", "message board reload: %v", err)
+		}
+	}
+	if si.Bans != nil {
+		if err := si.Bans.Load(); err != nil {
+			w.Violate("operator-reload-fails", "ban list reload: %v", err)
+		}
+	}
+	if si.News != nil {
+		if err := si.News.Load(); err != nil {
+			w.Violate("operator-reload-fails", "threaded news reload: %v", err)
+		}
+	}
+	if si.Agree != nil {
+		if err := si.Agree.Reload(); err != nil {
+			w.Violate("operator-reload-fails", "agreement reload: %v", err)
+		}
+	}
+	w.Probe("fault_operator_reload")
+}
+
+// StartOperator starts a thread that reloads the configuration up to max times, delay scheduler steps apart, for as
+// long as the simulation runs (it does not keep the simulation alive).
+func (w *World) StartOperator(max, delay int) {
+	if max <= 0 {
+		return
+	}
+	w.Sim.Go("operator", false, func() {
+		for k := 0; k < max; k++ {
+			Delay(5 + delay)
+			w.OperatorReload()
+		}
+	})
+}
+
 // Violate records a violation.
 func (w *World) Violate(sig, format string, args ...any) {
 	if len(w.viol) < 20 {
